@@ -17,6 +17,7 @@ pub fn exec_case(case: &Value) -> Value {
         "admits" => props::c05::exec(case),
         "scenario" => scenario::exec(case),
         "scenario_multi" => props::c11::exec(case),
+        "history_meta" => props::engine_props::exec_history_meta(case),
         "xpath" | "xpath_pair" => props::c18::exec(case),
         "num_cmp" => props::c04::exec_num_cmp(case),
         "parse_cond" | "parse_match" => props::parse::exec(case),
